@@ -1187,6 +1187,19 @@ class CallMixin:
         if name == "strip" and len(args) == 1 and isinstance(args[0], bytes) and len(args[0]) == 1:
             r = self.bytes_method(v, "lstrip", args, kwargs)
             return self.bytes_method(r, "rstrip", args, kwargs) if not isinstance(r, bytes) else r.rstrip(args[0])
+        if name in ("ljust", "rjust") and 1 <= len(args) <= 2 and isinstance(args[0], int) and not kwargs \
+                and (len(args) == 1 or (isinstance(args[1], bytes) and len(args[1]) == 1)):
+            # pad with the fill byte up to the width; strings already that long are returned unchanged
+            width, fill = args[0], (args[1] if len(args) == 2 else b" ")
+            n = self.length(v)
+            if not isinstance(n, int):
+                if self.p.branch(self.compare_vals("GtE", n, width)):
+                    return v
+                n = self.p.concretize(self.it(n))
+            if n >= width:
+                return v
+            pad = fill * (width - n)
+            return mk_bytes(as_chunks(v) + [pad]) if name == "ljust" else mk_bytes([pad] + as_chunks(v))
         if name == "decode":
             return ("$dec", v)
         if name == "count" and len(args) == 1:
